@@ -498,6 +498,32 @@ template<typename T> FM_NOINLINE void seq_conv(i64 a, i64 b, u64* r1, u64* r2) n
   T v2 { static_cast<T>(x) };
   *r1 = to_bits<T>(v1); *r2 = to_bits<T>(v2);
   }
+// the same named object passed twice to a unary entry point, modified in between
+template<int OP> FM_INLINE i64 un_on_object(fixed_t const & x) noexcept
+  {
+  if constexpr (OP==U_NEG) return (-x).v;
+  else if constexpr (OP==U_ABS) return abs(x).v;
+  else if constexpr (OP==U_ISNAN) return isnan(x) ? 1 : 0;
+  else if constexpr (OP==U_FLOOR) return floor(x).v;
+  else if constexpr (OP==U_CEIL) return ceil(x).v;
+  else if constexpr (OP==U_SIN) return sin(x).v;
+  else if constexpr (OP==U_COS) return cos(x).v;
+  else if constexpr (OP==U_TAN) return tan(x).v;
+  else if constexpr (OP==U_ATAN) return atan(x).v;
+  else if constexpr (OP==U_ASIN) return asin(x).v;
+  else if constexpr (OP==U_ACOS) return acos(x).v;
+  else if constexpr (OP==U_SQRT) return sqrt(x).v;
+  else return un_body<OP>(x.v);
+  }
+template<int OP> FM_NOINLINE void seq_un(i64 a, i64 b, i64* r1, i64* r2) noexcept
+  {
+  fixed_t x { fx(a) };
+  i64 v1 { un_on_object<OP>(x) };
+  x = fx(b);
+  i64 v2 { un_on_object<OP>(x) };
+  *r1 = v1; *r2 = v2;
+  }
+template<int OP> struct SeqUn { static void call(i64 a, i64 b, i64* r1, i64* r2) { seq_un<OP>(a, b, r1, r2); } };
 template<int OP> FM_INLINE void compound_step(fixed_t & x, fixed_t y) noexcept
   {
   if constexpr (OP==0) x += y; else if constexpr (OP==1) x -= y; else if constexpr (OP==2) x *= y; else x /= y;
@@ -514,6 +540,7 @@ FM_EXPORT void fm_seq_conv(int type, i64 a, i64 b, u64* r1, u64* r2)
   {
   with_any_type(type, [&](auto t) -> int { seq_conv<decltype(t)>(a, b, r1, r2); return 0; });
   }
+FM_EXPORT void fm_seq_un(int op, i64 a, i64 b, i64* r1, i64* r2) { dispatch<SeqUn,void>(op, std::make_integer_sequence<int,U_COUNT>{}, a, b, r1, r2); }
 FM_EXPORT i64 fm_seq_compound(int op1, int op2, i64 a, i64 b, i64 c)
   {
   return with_c4(op1, [&](auto o1){ return with_c4(op2, [&](auto o2) -> i64 { return seq_compound<decltype(o1)::value, decltype(o2)::value>(a, b, c); }); });
